@@ -277,7 +277,7 @@ PROPS = {
         vfiles=["Props/C12"], tie_extra=["Generated/TieNoDup", "Generated/TieDecCodes"],
         technique="Coq proof: acceptance by any decoder forces the packet's leading code to equal the kind's code, and the code table is injective (also re-proved NoDup over the constants re-read from the source); correspondence on the 16-decoder acceptance vector",
         level_text="Theorems C12_unique (for ANY packet at most one of the 16 decoders returns a value), C12_cross (the encoding of an event is rejected with an error "
-                   "value by each of the 15 other decoders), C12_codes_injective; Generated/TieNoDup.v re-proves pairwise distinctness of the codes as the source states them.",
+                   "value by each of the 15 other decoders), C12_codes_injective, C12_checker_accepts_model_packets/_events (the extracted checker provably accepts the model's flags); Generated/TieNoDup.v re-proves pairwise distinctness of the codes as the source states them.",
         level_note=NOTE_COMMON,
         streams=[dict(AMB, view="view_C12", ok="ok_C12")],
         rule=RULE_AMB,
